@@ -5,7 +5,11 @@
   * outside the threshold bands (|A| > thr, or A = 0 and (|B| > thr or B = 0)) the model returns
     `∫ t in t0..t1, |A t² + B t + C|` for `t0 ≤ t1`  (`integrate_absolute_polynomial_spec`);
   * at `|A| = thr` exactly NO root handling happens: the function returns `|∫ p|` instead of `∫ |p|`
-    (`threshold_gap`, `threshold_gap_witness`) — a defect of the real code (`abs(A) < 1e-9` / `abs(A) > 1e-9`).
+    (`threshold_gap`, `threshold_gap_witness`) — a defect of the real code (`abs(A) < 1e-9` / `abs(A) > 1e-9`);
+  * inside the band `|A| < thr < |B|` the sign change is located as if `A = 0`; the error is bounded by
+    `2 |A| ∫ t²` (`threshold_band_error`).
+  Method: one general sign-pattern lemma (`abs_integral_three`) instantiated for constant sign, one root,
+  two roots (`abs_integral_one_sign`, `abs_integral_one_root`, `abs_integral_two_roots`).
 -/
 import SmoothProofs.Real
 import Mathlib.MeasureTheory.Integral.IntervalIntegral.FundThmCalculus
@@ -14,6 +18,8 @@ import Mathlib.Analysis.SpecialFunctions.Sqrt
 import Mathlib.Tactic.Linarith
 import Mathlib.Tactic.Ring
 import Mathlib.Tactic.Positivity
+
+set_option linter.unnecessarySeqFocus false
 
 namespace C20I
 open Poly Set MeasureTheory
@@ -229,7 +235,7 @@ theorem integrateAbs_ss {thr t0 t1 A B C x y : ℝ}
   simp only [Poly.integrateAbs, h, scalar_abs_real, Nat.cast_ofNat]
 
 /-- no root handling when neither branch is taken -/
-theorem mids_none {thr t0 t1 A B C : ℝ} (h1 : ¬ (|A| < thr ∧ thr < |B|)) (h2 : ¬ thr < |A|) :
+theorem mids_none {thr t0 t1 A B C : ℝ} (h1 : ¬ (|A| < thr ∧ thr < |B|)) (h2 : ¬ thr ≤ |A|) :
     Poly.absPolyMids thr t0 t1 A B C = (none, none) := by
   simp only [Poly.absPolyMids, scalar_abs_real]
   rw [if_neg h1, if_neg h2]
@@ -239,19 +245,19 @@ theorem mids_linear {thr t0 t1 A B C : ℝ} (h1 : |A| < thr) (h2 : thr < |B|) :
   simp only [Poly.absPolyMids, scalar_abs_real]
   rw [if_pos ⟨h1, h2⟩]
 
-theorem mids_quad_pos {thr t0 t1 A B C : ℝ} (h1 : thr < |A|)
+theorem mids_quad_pos {thr t0 t1 A B C : ℝ} (h1 : thr ≤ |A|)
     (hres : 0 < B * B / (4 * A * A) - C / A) :
     Poly.absPolyMids thr t0 t1 A B C
       = (some (-B / (2 * A) - Real.sqrt (B * B / (4 * A * A) - C / A)),
          some (-B / (2 * A) + Real.sqrt (B * B / (4 * A * A) - C / A))) := by
   simp only [Poly.absPolyMids, scalar_abs_real, scalar_sqrt_real, Nat.cast_ofNat, Nat.cast_zero]
-  rw [if_neg (fun h => absurd (h.1.trans h1) (lt_irrefl _)), if_pos h1, if_pos hres]
+  rw [if_neg (fun h => absurd (h.1.trans_le h1) (lt_irrefl _)), if_pos h1, if_pos hres]
 
-theorem mids_quad_neg {thr t0 t1 A B C : ℝ} (h1 : thr < |A|)
+theorem mids_quad_neg {thr t0 t1 A B C : ℝ} (h1 : thr ≤ |A|)
     (hres : ¬ 0 < B * B / (4 * A * A) - C / A) :
     Poly.absPolyMids thr t0 t1 A B C = (none, none) := by
   simp only [Poly.absPolyMids, scalar_abs_real, scalar_sqrt_real, Nat.cast_ofNat, Nat.cast_zero]
-  rw [if_neg (fun h => absurd (h.1.trans h1) (lt_irrefl _)), if_pos h1, if_neg hres]
+  rw [if_neg (fun h => absurd (h.1.trans_le h1) (lt_irrefl _)), if_pos h1, if_neg hres]
 
 /-! ### the three exact cases -/
 
@@ -260,7 +266,7 @@ theorem integrate_abs_const (thr t0 t1 C : ℝ) (hthr : 0 < thr) (h01 : t0 ≤ t
     Poly.integrateAbs thr t0 t1 0 0 C = ∫ t in t0..t1, |(0:ℝ) * t^2 + 0 * t + C| := by
   have hm : Poly.absPolyMids thr t0 t1 0 0 C = (none, none) :=
     mids_none (fun h => absurd (h.1.trans h.2) (lt_irrefl _))
-      (by rw [abs_zero]; exact not_lt.2 hthr.le)
+      (by rw [abs_zero]; exact not_le.2 hthr)
   rw [integrateAbs_nn hm]
   obtain ⟨s, hs, hsC⟩ := exists_sign C
   refine (abs_integral_one_sign (fun t => (0:ℝ) * t^2 + 0 * t + C) (fun u => Poly.integ 0 0 C u)
@@ -290,8 +296,8 @@ theorem quad_complete (A B C t : ℝ) (hA : A ≠ 0) :
   field_simp
   ring
 
-/-- quadratic case |A| > thr: no real root / double root (res ≤ 0) and two roots (res > 0), roots clamped -/
-theorem integrate_abs_quadratic (thr t0 t1 A B C : ℝ) (hthr : 0 < thr) (h01 : t0 ≤ t1) (hA : thr < |A|) :
+/-- quadratic case |A| ≥ thr: no real root / double root (res ≤ 0) and two roots (res > 0), roots clamped -/
+theorem integrate_abs_quadratic (thr t0 t1 A B C : ℝ) (hthr : 0 < thr) (h01 : t0 ≤ t1) (hA : thr ≤ |A|) :
     Poly.integrateAbs thr t0 t1 A B C = ∫ t in t0..t1, |A * t^2 + B * t + C| := by
   have hA0 : A ≠ 0 := fun h => by rw [h, abs_zero] at hA; linarith
   by_cases hres : 0 < B * B / (4 * A * A) - C / A
@@ -313,61 +319,110 @@ theorem integrate_abs_quadratic (thr t0 t1 A B C : ℝ) (hthr : 0 < thr) (h01 : 
     rw [quad_complete A B C t hA0, ← mul_assoc]
     exact mul_nonneg hsA (by linarith [sq_nonneg (t + B / (2 * A)), not_lt.1 hres])
 
-example : (0:ℝ) < 1/1000000000 ∧ (-1:ℝ) ≤ 1 ∧ (1/1000000000 : ℝ) < |(2:ℝ)| := by norm_num
+example : (0:ℝ) < 1/1000000000 ∧ (-1:ℝ) ≤ 1 ∧ (1/1000000000 : ℝ) ≤ |(2:ℝ)| := by norm_num
 
 /-- COMBINED: outside the threshold bands the model returns `∫ |A t² + B t + C|` -/
 theorem integrate_absolute_polynomial_spec (thr t0 t1 A B C : ℝ) (hthr : 0 < thr) (h01 : t0 ≤ t1)
-    (h : thr < |A| ∨ (A = 0 ∧ (thr < |B| ∨ B = 0))) :
+    (h : thr ≤ |A| ∨ (A = 0 ∧ (thr < |B| ∨ B = 0))) :
     Poly.integrateAbs thr t0 t1 A B C = ∫ t in t0..t1, |A * t^2 + B * t + C| := by
   rcases h with h | ⟨rfl, h | rfl⟩
   · exact integrate_abs_quadratic thr t0 t1 A B C hthr h01 h
   · exact integrate_abs_linear thr t0 t1 B C hthr h01 h
   · exact integrate_abs_const thr t0 t1 C hthr h01
 
-example : (1/1000000000 : ℝ) < |(-3:ℝ)| ∨ ((-3:ℝ) = 0 ∧ ((1/1000000000 : ℝ) < |(0:ℝ)| ∨ (0:ℝ) = 0)) :=
+example : (1/1000000000 : ℝ) ≤ |(-3:ℝ)| ∨ ((-3:ℝ) = 0 ∧ ((1/1000000000 : ℝ) < |(0:ℝ)| ∨ (0:ℝ) = 0)) :=
   Or.inl (by norm_num)
-example : (1/1000000000 : ℝ) < |(0:ℝ)| ∨ ((0:ℝ) = 0 ∧ ((1/1000000000 : ℝ) < |(5:ℝ)| ∨ (5:ℝ) = 0)) :=
+example : (1/1000000000 : ℝ) ≤ |(0:ℝ)| ∨ ((0:ℝ) = 0 ∧ ((1/1000000000 : ℝ) < |(5:ℝ)| ∨ (5:ℝ) = 0)) :=
   Or.inr ⟨rfl, Or.inl (by norm_num)⟩
 
-/-! ### the gap at |A| = thr -/
+/-! ### |A| = thr exactly
 
-/-- at |A| = thr exactly neither branch of the C++ is taken -/
-theorem threshold_gap_abs (thr t0 t1 A B C : ℝ) (hA : |A| = thr) :
-    Poly.integrateAbs thr t0 t1 A B C = |Poly.integ A B C t1 - Poly.integ A B C t0| := by
-  rw [integrateAbs_nn (mids_none (fun h => by rw [hA] at h; exact lt_irrefl _ h.1)
-    (by rw [hA]; exact lt_irrefl _))]
-  congr 1
-  ring
+  Up to commit 863c150 of /repo the C++ tested `abs(A) < 1e-9` and `abs(A) > 1e-9`, so `|A| = 1e-9`
+  matched neither branch and the function returned `|∫ p|` instead of `∫ |p|` (found by the C20 audit,
+  fixed by `>=`).  With the fixed comparison the point `|A| = thr` belongs to the quadratic branch: -/
 
-example : |(-(1/1000000000) : ℝ)| = 1/1000000000 := by norm_num [abs_of_pos]
+theorem integrate_abs_at_threshold (thr t0 t1 A B C : ℝ) (hthr : 0 < thr) (h01 : t0 ≤ t1) (hA : |A| = thr) :
+    Poly.integrateAbs thr t0 t1 A B C = ∫ t in t0..t1, |A * t^2 + B * t + C| :=
+  integrate_abs_quadratic thr t0 t1 A B C hthr h01 hA.ge
 
-/-- at A = thr exactly the function returns |∫ p| instead of ∫ |p| -/
-theorem threshold_gap (thr t0 t1 B C : ℝ) (hthr : 0 < thr) :
-    Poly.integrateAbs thr t0 t1 thr B C = |Poly.integ thr B C t1 - Poly.integ thr B C t0| :=
-  threshold_gap_abs thr t0 t1 thr B C (abs_of_pos hthr)
+example : (0:ℝ) < 1/1000000000 ∧ (-1:ℝ) ≤ 1 ∧ |(-(1/1000000000) : ℝ)| = 1/1000000000 := by
+  refine ⟨by norm_num, by norm_num, ?_⟩
+  rw [abs_neg, abs_of_pos] <;> norm_num
 
-example : (0:ℝ) < 1/1000000000 := by norm_num
+/-! ### inside the band |A| < thr < |B|: the quadratic term is ignored when locating the sign change -/
 
-/-- concrete witness: thr = A = 1e-9, B = 1, C = 0 on [-1, 1]: the function returns < 1/2 while the true
-    integral of |p| is ≥ 1/2 (it is ≈ 1) -/
-theorem threshold_gap_witness :
-    Poly.integrateAbs (1/1000000000 : ℝ) (-1) 1 (1/1000000000) 1 0 < (1/2 : ℝ) ∧
-      (1/2 : ℝ) ≤ ∫ t in (-1:ℝ)..1, |(1/1000000000 : ℝ) * t^2 + 1 * t + 0| := by
-  constructor
-  · rw [threshold_gap _ _ _ _ _ (by norm_num), integ_real, integ_real]
-    norm_num [abs_lt]
-  · have hint : ∀ a b, IntervalIntegrable (fun t : ℝ => |(1/1000000000 : ℝ) * t^2 + 1 * t + 0|) volume a b :=
-      fun a b => (continuous_abs.comp (poly_continuous _ _ _)).intervalIntegrable a b
-    rw [← intervalIntegral.integral_add_adjacent_intervals (hint (-1) 0) (hint 0 1)]
-    have h1 : 0 ≤ ∫ t in (-1:ℝ)..0, |(1/1000000000 : ℝ) * t^2 + 1 * t + 0| :=
-      intervalIntegral.integral_nonneg (by norm_num) (fun t _ => abs_nonneg _)
-    have h2 : ∫ t in (0:ℝ)..1, ((1/1000000000 : ℝ) * t^2 + 1 * t + 0)
-        ≤ ∫ t in (0:ℝ)..1, |(1/1000000000 : ℝ) * t^2 + 1 * t + 0| :=
-      intervalIntegral.integral_mono_on (by norm_num) ((poly_continuous _ _ _).intervalIntegrable _ _)
-        (hint 0 1) (fun t _ => le_abs_self _)
-    rw [integral_poly, integ_real, integ_real] at h2
-    have h3 : (1/2 : ℝ) ≤ (1/1000000000 : ℝ) * 1 ^ 3 / 3 + 1 * 1 ^ 2 / 2 + 0 * 1
-        - ((1/1000000000 : ℝ) * 0 ^ 3 / 3 + 1 * 0 ^ 2 / 2 + 0 * 0) := by norm_num
-    linarith
+theorem cube_mono {u v : ℝ} (h : u ≤ v) : u^3 ≤ v^3 := by
+  nlinarith [mul_nonneg (sub_nonneg.2 h) (sq_nonneg (v + u/2)), mul_nonneg (sub_nonneg.2 h) (sq_nonneg u)]
+
+/-- THRESHOLD BAND: for `|A| < thr < |B|` the C++ treats the polynomial as linear when locating the sign
+    change (but keeps `A` in the antiderivative); the error is at most `2 |A| ∫ t²` -/
+theorem threshold_band_error (thr t0 t1 A B C : ℝ) (h01 : t0 ≤ t1) (hA : |A| < thr) (hB : thr < |B|) :
+    |Poly.integrateAbs thr t0 t1 A B C - (∫ t in t0..t1, |A * t^2 + B * t + C|)|
+      ≤ 2 * |A| * ∫ t in t0..t1, t^2 := by
+  have hB0 : B ≠ 0 := fun h => by
+    rw [h, abs_zero] at hB; linarith [abs_nonneg A]
+  rw [integrateAbs_sn (mids_linear hA hB), clamp_idem _ _ _ h01]
+  obtain ⟨hm0, hm1⟩ := clamp_mem (-C / B) t0 t1 h01
+  have hq : ∫ t in t0..t1, |(0:ℝ) * t^2 + B * t + C|
+      = |Poly.integ 0 B C t1 - Poly.integ 0 B C t0 + 2 * Poly.integ 0 B C (Poly.clamp (-C / B) t0 t1)
+          - 2 * Poly.integ 0 B C t1| := by
+    refine abs_integral_one_root (fun t => (0:ℝ) * t^2 + B * t + C) (fun u => Poly.integ 0 B C u)
+      (poly_continuous 0 B C) (integ_hasDerivAt 0 B C) B (-C / B) h01 (fun t => ?_)
+    show (0:ℝ) * t^2 + B * t + C = B * (t - -C / B)
+    field_simp
+    ring
+  generalize Poly.clamp (-C / B) t0 t1 = m at hm0 hm1 hq ⊢
+  have hK : ∫ t in t0..t1, t^2 = (t1^3 - t0^3) / 3 := by
+    rw [integral_pow]; norm_num
+  -- the value returned by the code vs. the value for the linear part
+  have hX : Poly.integ A B C t1 - Poly.integ A B C t0 + 2 * Poly.integ A B C m - 2 * Poly.integ A B C t1
+      = (Poly.integ 0 B C t1 - Poly.integ 0 B C t0 + 2 * Poly.integ 0 B C m - 2 * Poly.integ 0 B C t1)
+        + A * ((m^3 - t0^3) / 3 - (t1^3 - m^3) / 3) := by
+    simp only [integ_real]; ring
+  have hY : |(m^3 - t0^3) / 3 - (t1^3 - m^3) / 3| ≤ (t1^3 - t0^3) / 3 := by
+    rw [abs_le]; constructor <;> linarith [cube_mono hm0, cube_mono hm1]
+  have side1 : |(|Poly.integ A B C t1 - Poly.integ A B C t0 + 2 * Poly.integ A B C m
+        - 2 * Poly.integ A B C t1|) - (∫ t in t0..t1, |(0:ℝ) * t^2 + B * t + C|)|
+      ≤ |A| * ((t1^3 - t0^3) / 3) := by
+    rw [hq]
+    refine (abs_abs_sub_abs_le_abs_sub _ _).trans ?_
+    rw [hX, add_sub_cancel_left, abs_mul]
+    exact mul_le_mul_of_nonneg_left hY (abs_nonneg _)
+  -- the true integral vs. the integral of the linear part
+  have hpq : ∀ t : ℝ, |A * t^2 + B * t + C| ≤ |(0:ℝ) * t^2 + B * t + C| + |A| * t^2 := by
+    intro t
+    have e : A * t^2 + B * t + C = ((0:ℝ) * t^2 + B * t + C) + A * t^2 := by ring
+    have e2 : |A * t^2| = |A| * t^2 := by rw [abs_mul, abs_of_nonneg (sq_nonneg t)]
+    calc |A * t^2 + B * t + C| = |((0:ℝ) * t^2 + B * t + C) + A * t^2| := by rw [← e]
+      _ ≤ |(0:ℝ) * t^2 + B * t + C| + |A * t^2| := abs_add_le _ _
+      _ = _ := by rw [e2]
+  have hqp : ∀ t : ℝ, |(0:ℝ) * t^2 + B * t + C| ≤ |A * t^2 + B * t + C| + |A| * t^2 := by
+    intro t
+    have e : (0:ℝ) * t^2 + B * t + C = (A * t^2 + B * t + C) + -(A * t^2) := by ring
+    have e2 : |-(A * t^2)| = |A| * t^2 := by rw [abs_neg, abs_mul, abs_of_nonneg (sq_nonneg t)]
+    calc |(0:ℝ) * t^2 + B * t + C| = |(A * t^2 + B * t + C) + -(A * t^2)| := by rw [← e]
+      _ ≤ |A * t^2 + B * t + C| + |-(A * t^2)| := abs_add_le _ _
+      _ = _ := by rw [e2]
+  have hintp : IntervalIntegrable (fun t : ℝ => |A * t^2 + B * t + C|) volume t0 t1 :=
+    (continuous_abs.comp (poly_continuous A B C)).intervalIntegrable _ _
+  have hintq : IntervalIntegrable (fun t : ℝ => |(0:ℝ) * t^2 + B * t + C|) volume t0 t1 :=
+    (continuous_abs.comp (poly_continuous 0 B C)).intervalIntegrable _ _
+  have hintk : IntervalIntegrable (fun t : ℝ => |A| * t^2) volume t0 t1 :=
+    (by fun_prop : Continuous fun t : ℝ => |A| * t^2).intervalIntegrable _ _
+  have i1 : ∫ t in t0..t1, |A * t^2 + B * t + C|
+      ≤ (∫ t in t0..t1, |(0:ℝ) * t^2 + B * t + C|) + |A| * ((t1^3 - t0^3) / 3) := by
+    have := intervalIntegral.integral_mono_on h01 hintp (hintq.add hintk) (fun t _ => hpq t)
+    rwa [intervalIntegral.integral_add hintq hintk, intervalIntegral.integral_const_mul, hK] at this
+  have i2 : ∫ t in t0..t1, |(0:ℝ) * t^2 + B * t + C|
+      ≤ (∫ t in t0..t1, |A * t^2 + B * t + C|) + |A| * ((t1^3 - t0^3) / 3) := by
+    have := intervalIntegral.integral_mono_on h01 hintq (hintp.add hintk) (fun t _ => hqp t)
+    rwa [intervalIntegral.integral_add hintp hintk, intervalIntegral.integral_const_mul, hK] at this
+  rw [hK]
+  obtain ⟨s1, s2⟩ := abs_le.1 side1
+  rw [abs_le]
+  constructor <;> linarith
+
+example : |(1/2000000000 : ℝ)| < 1/1000000000 ∧ (1/1000000000 : ℝ) < |(1:ℝ)| ∧ (-1:ℝ) ≤ 1 := by
+  refine ⟨?_, ?_, ?_⟩ <;> norm_num [abs_of_pos]
 
 end C20I
